@@ -83,6 +83,41 @@ class C11Hook:
             self.stats["fresh_literal_checks"] += 1
         if verdict[0] == "bad":
             run.violation("C11-canonical", ts.ti, oi, "$fresh", "ids 0,1,2,... in canonical order", verdict[1])
+        self._reference(run, ts, oi, text, ms, srcclass)
+
+    def _reference(self, run, ts, oi, text, ms, srcclass):
+        """'The canonical order shared by all implementations' is on file for the acceptance corpus: with a fresh
+        incrementing generator the ids of AST nodes, pickles, pickle steps and every reference must be the ones in
+        testdata/good/<name>.feature.{ast,pickles}.ndjson."""
+        name = (run.spec.get("labels") or [None])[0]
+        if run.spec.get("scenario") != "canon" or not isinstance(name, str) or not name.startswith("good/") or ms is not None:
+            return
+        key = ("ref", name)
+        verdict = self.fresh_cache.get(key)
+        if verdict is None:
+            import json
+            import os
+            verdict = ("n/a", None)
+            base = os.path.join(REPO_PATH(), "testdata", name + ".feature")
+            try:
+                with open(base + ".ast.ndjson", encoding="utf-8") as f:
+                    ref_doc = [json.loads(x)["gherkinDocument"] for x in f if x.strip()]
+                with open(base + ".pickles.ndjson", encoding="utf-8") as f:
+                    ref_pk = [json.loads(x)["pickle"] for x in f if x.strip()]
+            except (OSError, ValueError, KeyError):
+                ref_doc = None
+            if ref_doc and len(ref_doc) == 1:
+                cr = engine.ALONE.compile(text, ms, "fresh.feature", srcclass)
+                if cr["kind"] == "pickles":
+                    # ids in the model's walk order (the key order of the two JSON renderings differs)
+                    got = [[n.get("id") for n in idmodel.canonical_ast_order(cr["parse"]["raw"])], id_skeleton(cr["raw"])]
+                    want = [[n.get("id") for n in idmodel.canonical_ast_order(ref_doc[0])], id_skeleton(ref_pk)]
+                    d = engine.first_diff(want, got, "$reference")
+                    verdict = ("bad", [d, want, got]) if d else ("ok", None)
+                    self.stats["reference_id_comparisons"] = self.stats.get("reference_id_comparisons", 0) + 1
+            self.fresh_cache[key] = verdict
+        if verdict[0] == "bad":
+            run.violation("C11-canonical", ts.ti, oi, verdict[1][0], verdict[1][1], verdict[1][2])
 
     def _check_doc(self, run, ts, oi, gkey, doc_snap, doc_norm, draws, tag="A"):
         ids = idmodel.all_ids(doc_snap)
